@@ -308,6 +308,27 @@ func ruleAckAfterLog(p *Prog, r *Report, rule string) {
 		ordPrecede(p, r, fn, "journal-before-ack", nil, wj, "writeJournal", okUnlock, ackDesc)
 		ordNotOnError(p, r, fn, "putMem-not-on-journal-error", errWJ, "writeJournal", wj, putMem, "batch.putMem")
 		ordNotOnError(p, r, fn, "ack-not-on-journal-error", errWJ, "writeJournal", wj, okUnlock, ackDesc)
+		// a sync request of ANY writer of the group reaches the journal: every merged request's sync
+		// flag is read before the request is told "merged", and the flag handed to writeJournal is fed
+		// by the leader's own flag and by the merged requests' flags
+		sel := func(in ssa.Instruction) bool {
+			s, ok := in.(*ssa.Select)
+			return ok && len(s.States) == 1 && isFieldLoad(s.States[0].Chan, tDB, "writeMergeC")
+		}
+		sendTrue := func(in ssa.Instruction) bool {
+			s, ok := in.(*ssa.Send)
+			if !ok || !isFieldLoad(s.Chan, tDB, "writeMergedC") {
+				return false
+			}
+			bv, ok := constBool(s.X)
+			return ok && bv
+		}
+		readSync := func(in ssa.Instruction) bool {
+			v, ok := in.(ssa.Value)
+			return ok && mFieldLoad("leveldb.writeMerge", "sync")(v)
+		}
+		ordNeverAfter(p, r, fn, "merged-sync-honoured", groupNotYetSync(fn), sel, "receive of a merge request", sendTrue, "writeMergedC <- true", readSync, "reading the request's sync flag")
+		checkCallArg(p, r, fn, "sync-includes-merged", "(*leveldb.DB).writeJournal", 3, mOriginAny(mFieldLoad("leveldb.writeMerge", "sync")), "or-ed with every merged request's sync flag")
 	}
 	r.End()
 }
